@@ -6,6 +6,8 @@ CONSTANTS
   Reps = {1}
   Shared = {2}
   MixNames = {"create", "log", "balanced"}
+  OpndNames = {"mixed"}
+  Caps = {1, 2, 3, 5, 9}
   Closers = {}
 INVARIANT Emit
 CHECK_DEADLOCK FALSE
